@@ -1571,6 +1571,11 @@ func (c *twoPhaseCommitter) checkAsyncCommit() bool {
 		!c.shouldWriteBinlog() {
 		totalKeySize := uint64(0)
 		for i := 0; i < c.mutations.Len(); i++ {
+			// An Op_CheckNotExists mutation writes no lock, so its failure cannot keep other clients from
+			// finding all locks of an async-commit transaction prewritten and committing it.
+			if c.mutations.GetOp(i) == kvrpcpb.Op_CheckNotExists {
+				return false
+			}
 			totalKeySize += uint64(len(c.mutations.GetKey(i)))
 			if totalKeySize > asyncCommitCfg.TotalKeySizeLimit {
 				return false
